@@ -139,8 +139,8 @@ EXTRA = {
     "C04": " Codec objects are also constructed with a default_dialect that customises nothing the subject contains (same documents expected).",
     "C06": " Configured families without strategies (alias sources incl. two on one field, serialized by alias with default options) are schema subjects too.",
     "C20": " The builder context is also explored as a state machine of its own (sys/SchemaCtx.tla, MC_SchemaCtx): every sequence of builder builds, fresh one-shot builds and one-off build_json_schema calls that share the builder's context while overriding one setting, for dialect x all_refs x ref_prefix; behaviours are replayed against the real builder.",
-    "C12": " A variant that declares a class-level discriminator of its own (two dispatch levels, Discr.tla FromDictD) is explored on the three sites.",
-    "C14": " Postponed evaluation is a state machine of its own (sys/Postponed.tla: late definition of a forward-referenced class x stub / real method slots of a parent compiled eagerly or lazily and of its nested plain / mixin class; Faithful, NoRealToStub; the deviant 'strict nested compilation' refuted by TLC) whose every behaviour is replayed; the per-format method of a discriminated variant is exercised in both orders of first use (dispatch / holder).",
+    "C12": " A variant that declares a class-level discriminator of its own (two dispatch levels, Discr.tla FromDictD), a Discriminator OBJECT shared with an unrelated class's Config, variant_tagger_fn (one tag / a list of tags per class) and discriminators on an outer Annotated around Optional / List are explored as further histories.",
+    "C14": " Postponed evaluation is a state machine of its own (sys/Postponed.tla: late definition of a forward-referenced class x stub / real method slots of a parent compiled eagerly or lazily and of its nested plain / mixin class; Faithful, NoRealToStub; the deviant 'strict nested compilation' refuted by TLC) whose every behaviour is replayed; the per-format method of a discriminated variant is exercised in both orders of first use (dispatch / holder); sys/RegistryThreads.tla (lazily filled discriminator registry under concurrent first calls: Faithful, Monotone, clearing deviant refuted) is bound by seeded LINE-LEVEL thread schedules of the generated dispatcher.",
     "C17": " One generic class specialised with two same-named classes from two modules is a subject in both orders of first compilation.",
 }
 for _k in CONF:
